@@ -207,7 +207,7 @@ var soupContexts = []string{"T | where %s", "T | summarize %s", "T | extend %s",
 
 // soupOps / soupOpContexts: operator-level soups (keywords of every operator's
 // optional parts) spliced where an operator or its arguments are expected.
-var soupOps = []string{"a", "(", ")", ",", "=", "by", "kind", "inner", "on", "with", "nulls", "first", "asc", "|", "count", "1", "'s'", ";"}
+var soupOps = []string{"a", "(", ")", ",", "=", "by", "kind", "inner", "on", "with", "nulls", "first", "asc", "|", "count", "1", "'s'", ";", "-"}
 var soupOpContexts = []string{"T | join %s", "T | join kind = %s", "T | join (U) %s", "T | render %s", "T | render x with (%s", "T | take %s", "T | as %s", "T | %s", "%s", "T | sort by a %s", "T | top %s", "T | summarize a %s", "let %s"}
 
 // enumSoups calls f for every space-joined sequence of 0..maxLen alphabet
